@@ -434,10 +434,14 @@ func ruleGL3(c *Ctx) *rule {
 						same = true
 					}
 				}
-				if same {
-					r.ok(key, c.ipos(mu), "stored under the pattern that was expanded")
-				} else {
+				whole := isResultOf(mu.Value, expandCall, 0)
+				switch {
+				case !same:
 					r.bad(key, c.ipos(mu), "the expansion is stored under a key that is not the expanded pattern")
+				case !whole:
+					r.bad(key, c.ipos(mu), "what is remembered for the pattern is not the expansion itself but something derived from it (filtered, merged or de-duplicated against other patterns): the pattern no longer denotes every file it matches")
+				default:
+					r.ok(key, c.ipos(mu), "the expansion itself, stored under the pattern that was expanded")
 				}
 			}
 		}
@@ -675,9 +679,7 @@ func (c *Ctx) findWalk() *findWalk {
 			fw.rd = call
 		}
 	}
-	if fw.rd == nil {
-		lost("file.Find does not call os.ReadDir")
-	}
+	// (a Find that does not list directories, e.g. one os.Stat per level, has rd == nil)
 	// the walk loop: a loop with a header phi whose back-edge value derives from filepath.Dir of itself
 	for _, l := range fw.fi.loops {
 		for _, p := range l.headerPhis() {
@@ -701,6 +703,9 @@ func (c *Ctx) findWalk() *findWalk {
 }
 
 func (fw *findWalk) fsTainted(c *Ctx, v ssa.Value) bool {
+	if fw.rd == nil {
+		return false
+	}
 	sl := c.newSlicer()
 	sl.depth = 0
 	return sl.run(v).has(fw.rd)
@@ -711,7 +716,7 @@ func ruleFD1(c *Ctx) *rule {
 		Statement: "the upward walk has, on every iteration, an exit test that depends on the directory being searched and not on its contents (FD1), and one such test can fire at the file-system root whatever the stop directory is (FD2)",
 		Necessity: "if every exit test sits under a branch on the directory listing, an empty directory skips it; if the only test is `dir == stop`, a start outside stop climbs to '/' and spins there forever since filepath.Dir(\"/\") == \"/\""}
 	fw := c.findWalk()
-	r.note("walk loop at %s over φ %s, os.ReadDir at %s", c.bpos(fw.loop.header), fw.w.Comment, c.ipos(fw.rd))
+	r.note("walk loop at %s over φ %s", c.bpos(fw.loop.header), fw.w.Comment)
 	type exitTest struct {
 		blk      *ssa.BasicBlock
 		cond     ssa.Value
@@ -744,7 +749,10 @@ func ruleFD1(c *Ctx) *rule {
 		sl.depth = 0
 		res := sl.run(cond)
 		et := exitTest{blk: b, cond: cond, hasW: res.has(fw.w)}
-		et.tainted = res.has(fw.rd)
+		et.tainted = fw.rd != nil && res.has(fw.rd)
+		if res.hasCall("os.Stat") || res.hasCall("os.Lstat") {
+			et.tainted = true // depends on what is in the directory
+		}
 		// control-tainted: the test sits inside a loop over the entries or under a branch on them
 		for _, g := range fw.fi.necessaryGuards(b) {
 			if fw.loop.body[g.e.from] && fw.fsTainted(c, g.cond) {
@@ -892,6 +900,7 @@ func ruleFD4(c *Ctx) *rule {
 		n++
 		gs := fw.fi.necessaryGuards(ret.Block())
 		var nameEntry, dirEntry ssa.Value
+		statShape, statRegular := false, false
 		for _, g := range gs {
 			if bo, ok := g.cond.(*ssa.BinOp); ok && ((bo.Op == token.EQL && g.pol) || (bo.Op == token.NEQ && !g.pol)) {
 				for _, pair := range [][2]ssa.Value{{bo.X, bo.Y}, {bo.Y, bo.X}} {
@@ -909,9 +918,34 @@ func ruleFD4(c *Ctx) *rule {
 			}
 			if call, ok := g.cond.(*ssa.Call); ok && strings.HasSuffix(calleeName(call.Common()), ").IsRegular") && g.pol {
 				dirEntry = nameEntry
+				statRegular = true
+			}
+			if call, ok := g.cond.(*ssa.Call); ok && strings.HasSuffix(calleeName(call.Common()), ").IsDir") && !g.pol {
+				statRegular = true
+			}
+		}
+		// the shape without a directory listing: the hit is a successful os.Stat of <dir>/NAME
+		if nameEntry == nil {
+			ps := c.newSlicer()
+			ps.depth = 0
+			pres := ps.run(ret.Results[0])
+			for _, cst := range pres.consts {
+				if sv, ok := constString(cst); ok && sv == nameConst && pres.has(fw.w) {
+					statShape = true
+				}
 			}
 		}
 		key := fmt.Sprintf("%s found-return#%d name-guard", fname(fw.fn), n)
+		if statShape {
+			r.ok(key, c.ipos(ret), "the returned path is <searched directory>/"+nameConst)
+			key = fmt.Sprintf("%s found-return#%d not-a-directory-guard", fname(fw.fn), n)
+			if statRegular {
+				r.ok(key, c.ipos(ret), "guarded by a not-a-directory / regular-file test")
+			} else {
+				r.bad(key, c.ipos(ret), "the existence of <dir>/"+nameConst+" is accepted without testing that it is not a directory: a directory named "+nameConst+" is returned as the spokfile", describeGuards(c, gs)...)
+			}
+			continue
+		}
 		if nameEntry != nil {
 			r.ok(key, c.ipos(ret), "guarded by Name() == "+nameConst)
 		} else {
@@ -1012,7 +1046,7 @@ func ruleFD5(c *Ctx) *rule {
 				after = false
 			}
 		}
-		if !before(fw.rd, iff) {
+		if fw.rd != nil && !before(fw.rd, iff) {
 			after = false
 		}
 		if after {
@@ -1038,6 +1072,6 @@ func fsProperties() []*propertySpec {
 			Explanation: "Static analysis of file.Find: the walk loop is identified by its header phi fed by filepath.Dir of itself; FD1/FD2 classify every exit test of the loop by backward slicing (depends on the searched directory, independent of os.ReadDir results, dominates the back edge, can fire at the root); FD3 proves no negative answer is returned from inside the loop over the entries; FD4 proves the found-return is guarded by Name()==NAME and !IsDir() of the same entry and that the CLI passes cwd/home; FD5 proves the stop comparison is made on the listed directory after its entries were read.",
 			NotCovered:  []string{"symlinked directories, permission errors other than being reported", "that filepath.Dir reaches a fixed point at the root (library fact)"},
 			Assumptions: []string{"filepath.Dir(d) == d exactly at a file-system root; os.ReadDir returns all entries of a directory"},
-			Rules:       []func(*Ctx) *rule{ruleFD1, ruleFD3, ruleFD4, ruleFD5}},
+			Rules:       []func(*Ctx) *rule{ruleFD1, ruleFD3, ruleFD4, ruleFD5, ruleFD6}},
 	}
 }
